@@ -179,9 +179,9 @@ C14_REQS = [
         {'id': 'multi-secret-pok', 'what': 'PoK of the committed attributes gates acceptance and depends on C, the bases, b, N and the hidden positions',
          'gate_callee': ['PartialEq'], 'in_fn': ['nispMultiSecrets_verify_proof'],
          'cover': ['C.value', 'a_bases', 'signer_pk.b', 'signer_pk.N', 'unrevealed_message_indexes', 'self.proof_commited_msgs']},
-        {'id': 'per-attribute-pok', 'what': 'per-attribute PoK gates acceptance with base a_i', 'gate_callee': ['PartialEq'], 'in_fn': ['nisp2sec_verify_proof'],
+        {'id': 'per-attribute-pok', 'any_path': True, 'what': 'per-attribute PoK gates acceptance with base a_i', 'gate_callee': ['PartialEq'], 'in_fn': ['nisp2sec_verify_proof'],
          'cover': ['self.proofs_commited_mi', 'a_bases', 'unrevealed_message_indexes', 'signer_pk.b', 'signer_pk.N']},
-        {'id': 'range-proof-mi', 'what': 'per-attribute range proof gates acceptance', 'gate_callee': ['PartialEq'], 'in_fn': ['verify_of_square_decomposition_range'],
+        {'id': 'range-proof-mi', 'any_path': True, 'what': 'per-attribute range proof gates acceptance', 'gate_callee': ['PartialEq'], 'in_fn': ['verify_of_square_decomposition_range'],
          'cover': ['self.range_proofs_mi', 'signer_pk.N', 'a:lm']},
         {'id': 'pok-r', 'what': 'PoK of the commitment randomness gates acceptance', 'gate_callee': ['PartialEq'], 'in_fn': ['nisp2sec_verify_proof'],
          'cover': ['self.proof_r', 'a_bases', 'signer_pk.b', 'signer_pk.N']},
@@ -433,7 +433,7 @@ C15_REQS = [
                    'n_signed_messages']},
         {'id': 'range-proof-e', 'what': 'range proof on e gates acceptance with bounds from le', 'gate_callee': ['PartialEq'], 'in_fn': ['verify_of_square_decomposition_range'],
          'cover': ['self.range_proof_e', 'commitment_pk.N', 'a:le']},
-        {'id': 'pok-mi', 'what': 'per-attribute PoK gates acceptance with base g_i', 'gate_callee': ['PartialEq'], 'in_fn': ['nisp2sec_verify_proof'],
+        {'id': 'pok-mi', 'any_path': True, 'what': 'per-attribute PoK gates acceptance with base g_i', 'gate_callee': ['PartialEq'], 'in_fn': ['nisp2sec_verify_proof'],
          'cover': ['self.proofs_commited_mi', 'commitment_pk.g_bases', 'commitment_pk.h', 'commitment_pk.N', 'unrevealed_message_indexes']},
     ]),
 ]
